@@ -632,6 +632,12 @@ func handleInputStream(s *Session, handler Handler) (err error) {
 		id:          id,
 	}
 	if err := handler.HandleXMPP(rw, &start); err != nil {
+		if err == io.EOF {
+			// Only the peer's closing tag ends the session quietly: a bare io.EOF
+			// returned by a handler (for example one that leaked out of a token
+			// reader) must not be mistaken for it by Serve.
+			err = io.ErrUnexpectedEOF
+		}
 		return err
 	}
 
